@@ -17,8 +17,11 @@
      ml_processes[l]); copy.deepcopy copies both deques with their rows (same tags).
    * one sample (simulate_one_path / simulate_one_path_with_coupling):  fixed-date mode pops the left
      Poisson row, draws fresh variates (jump sizes, state samplers, coupling uniforms: a data
-     dependent list of (stream, count) -- the *schedule*, an explicit parameter), pops the left
-     Brownian row;  jump-time mode only draws.
+     dependent list of (stream, count, decision?) -- the *schedule*, an explicit parameter), pops the
+     left Brownian row;  jump-time mode only draws.  A draw flagged `decision` is the one made inside
+     CouplingSimulation.coupling_state (`self.coupling_process.uniform.sample() < probability`): the
+     variates it returns are consumed at once by that comparison, one EUse event each (the harness
+     observes the uniform actually compared and maps it back to its position).
    * engines = instruction lists (std_ops, mlc_ops, mlp_ops) for the repaired tree
      (seed applied once, first, `seed is not None`), *_orig for the tree before the fix: commits,
      and a fork-with-copy model of the worker pool (pool_run).
@@ -53,10 +56,11 @@ Inductive ev :=
 | EPop (t : tag)                        (* popleft returned the row tagged t *)
 | EUnderflow                            (* popleft on an empty deque (IndexError in Python) *)
 | EBegin (lvl : Z)
-| EEnd.
+| EEnd
+| EUse (p : pos).                       (* a coupling decision compared the variate at position p *)
 
 Definition sample : Type := (Z * list pos)%type.   (* level (-1 = standard engine), positions used *)
-Definition sched : Type := list (bool * Z).        (* fresh draws of one sample: (python stream?, count) *)
+Definition sched : Type := list (bool * Z * bool). (* fresh draws of one sample: (python stream?, count, decision?) *)
 
 Inductive op :=
 | OSeed (s : Z)
@@ -70,10 +74,11 @@ Definition set_slot (f : Z -> proc) (s : Z) (p : proc) : Z -> proc := fun z => i
 Fixpoint draws_run (g : gen) (ds : sched) : list ev * list pos * gen :=
   match ds with
   | [] => ([], [], g)
-  | (py, k) :: r =>
+  | (py, k, dec) :: r =>
       let c := ctr py g in
       let '(es, ps, g') := draws_run (advance py k g) r in
-      (EDraw py (g_sid g) c (Z.max 0 k) :: es, block py (g_sid g) c k ++ ps, g')
+      (EDraw py (g_sid g) c (Z.max 0 k) :: (if dec then map EUse (block py (g_sid g) c k) else []) ++ es,
+       block py (g_sid g) c k ++ ps, g')
   end.
 
 Definition pois_rows (cid sid p0 n nb : Z) : list row :=
@@ -151,6 +156,8 @@ Fixpoint underflows (es : list ev) : nat :=
   match es with [] => O | EUnderflow :: r => S (underflows r) | _ :: r => underflows r end.
 Fixpoint drawn (es : list ev) : list pos :=
   match es with [] => [] | EDraw py sid from k :: r => block py sid from k ++ drawn r | _ :: r => drawn r end.
+Fixpoint uses (es : list ev) : list pos :=
+  match es with [] => [] | EUse p :: r => p :: uses r | _ :: r => uses r end.
 Fixpoint seeds (es : list ev) : list Z :=
   match es with [] => [] | ESeed s :: r => s :: seeds r | _ :: r => seeds r end.
 
@@ -283,6 +290,7 @@ Definition enc_ev (e : ev) : list Z :=
   | EBegin l => [4; l]
   | EEnd => [5]
   | EUnderflow => [9]
+  | EUse p => [6; b2z (fst (fst p)); snd (fst p); snd p]
   end.
 Definition enc_sample (s : sample) : list Z :=
   fst s :: flat_map (fun p : pos => [b2z (fst (fst p)); snd (fst p); snd p]) (snd s).
